@@ -741,6 +741,7 @@ func init() {
 		Run:         run,
 		Replay:      replayFn,
 		Single:      sm.Single,
+		SingleTicks: true,
 		Classify:    sm.SkipHangs,
 		HangLimit:   15 * time.Second,
 		SingleLimit: 30 * time.Second,
